@@ -293,6 +293,10 @@ class PathInterp(sym.Interp):
                         self.bind(sub, v.payload, n)
                 return sp.true if want_some else sp.false
             return sp.false if want_some else sp.true
+        if isinstance(v, sym.CondOpt):
+            v = self.force_opt(v, n)           # `cond.then_some(x)`: decided like an `if`
+        if isinstance(v, (sym.Variant, ResVal)):
+            return sp.true if self.bind_refutable(pat, v, n) else sp.false
         raise sym.Unsupported(n, "let-pattern on %r" % (v,))
 
     def ev_Match(self, n):
